@@ -17,7 +17,7 @@ func init() {
 		ID: "C03",
 		Explanation: "Three structural clauses of the slice/map helpers, decided on SSA for all inputs: (R1) every slice or index expression whose bound depends on an integer parameter (or is a constant index into a parameter) satisfies 0 <= lo <= hi <= len(s) under the comparisons that dominate it (difference-bound reasoning over the parameters, len() terms and constants) - len, not cap, because slicing past len returns elements that are not part of the input; " +
 			"(R2) loops whose step or group size comes from a parameter are dominated by step > 0 (termination); (R3) no helper writes memory reachable from its slice/map arguments (interprocedural write-effect analysis; append into spare capacity counts as a write). " +
-			"(R4) every integer division or remainder has a divisor proven non-zero under its dominating guards; (R5) an input map is never read with a plain index expression for a key that may be absent (missing key vs stored zero value). R4/R5 expect zero instances on the library and self-test their matcher on an embedded snippet on every run. Not decided: that each helper returns the value of its documented definition (value-level equality over all inputs), and indices that depend only on loop counters (listed in the evidence as counter-indexed, not claimed).",
+			"(R4) every integer division or remainder has a divisor proven non-zero under its dominating guards; (R5) an input map is never read with a plain index expression for a key that may be absent (missing key vs stored zero value). R4/R5 expect zero instances on the library and self-test their matcher on an embedded snippet on every run. Not decided: that each helper returns the value of its documented definition (value-level equality over all inputs), and indices that depend only on loop counters (listed in the evidence as counter-indexed, not claimed). (R6) Drop/DropLast/Take/TakeLast return on every feasible path the window of the input prescribed for the region of count the path lies in (linear forms over a difference-bound domain).",
 		Trusted: append([]string{"user callbacks do not mutate the slices they are applied to"}, commonTrusted...),
 		Run:     runC03,
 		Relies: []Dep{
